@@ -53,11 +53,14 @@ PostOK(s, p) ==
 TInit == Init /\ l = 2 /\ TLCSet(1, 2) /\ CfgOK
 
 \* an input step of replica i with the given set of allowed results
-InputT(i, results) ==
+\* (lossy = TRUE adds the alternative "the input was treated as lost"; it is FALSE for events whose
+\* only unlogged effect is bookkeeping of the specification itself - a read request's floor -, where
+\* the alternative could never be told apart and would double the search at every such event)
+InputTL(i, results, lossy) ==
   /\ st[i].up /\ ~rdy[i].has
   /\ LET s == st[i]
          outs == JMsgs(E.out)
-     IN \E res \in results \cup {Ignore(s)} :
+     IN \E res \in results \cup (IF lossy THEN {Ignore(s)} ELSE {}) :
           LET c == P.commit
               s2 == [res.s EXCEPT !.commit = IF c >= s.commit /\ c <= res.s.commit THEN c ELSE @,
                                   !.out = @ \cup outs]
@@ -68,6 +71,8 @@ InputT(i, results) ==
              /\ RecordCommit(s2, s.commit, FALSE)
              /\ bad' = bad \cup BadAfterInput(i, s, s2, outs)
   /\ UNCHANGED <<dur, rdy, net, grants, gapp>>
+
+InputT(i, results) == InputTL(i, results, TRUE)
 
 RecvT(i) == LET m == JMsg(E.m) IN
             /\ m \in net /\ m.to = i /\ st[i].up
@@ -140,7 +145,7 @@ TNext ==
        [] E.ev = "propose"     -> InputT(i, {ProposeRes(i, st[i], Ent(0, "n", E.a))})
        [] E.ev = "proposeconf" -> InputT(i, {ProposeRes(i, st[i], Ent(0, E.cc.k, E.cc.v))})
        [] E.ev = "transfer"    -> InputT(i, {TransferRes(i, st[i], E.a)})
-       [] E.ev = "readindex"   -> InputT(i, {ReadReqRes(i, st[i], E.a, 0)})
+       [] E.ev = "readindex"   -> InputTL(i, {ReadReqRes(i, st[i], E.a, 0)}, FALSE)
        [] E.ev = "reportsnap"  -> InputT(i, {})
        [] E.ev = "unreachable" -> InputT(i, {})
        [] E.ev = "ready"       -> ReadyT(i)
